@@ -1133,6 +1133,7 @@ class TB:
                 continue
             if n in env.types or all(n in a or t for a, t in zip(ass, term)):
                 names.append(n)
+        names.sort()  # in name order: the order of the statements does not change the shape of what is handed on
         if nar and nar[0] in ("opt", "lol") and nar[1] in names and nar[0] == "lol":
             raise Unsupported(s, "assignment to the variable tested by isinstance")
         out_types: dict = {}
@@ -1174,7 +1175,8 @@ class TB:
         else:
             src, ety = self.iter_source(it, env)
         pre = env.take()
-        state = [n for n in self.assigned(s.body) if n in env.types]
+        # in name order, so that the order of the statements in the body does not change the shape of the state
+        state = sorted(n for n in self.assigned(s.body) if n in env.types)
         for n in state:
             if n in [x for x, _ in env.fn.ro]:
                 raise Unsupported(s, f"captured variable {n} is changed")
